@@ -13,7 +13,12 @@ CONFIG = {
                 "(escaped backslash, quote and newline, tabs, controls, non-ASCII, non-printable and astral runes), regexes with "
                 "doubled slashes, ints, decimals, bools, references, nested and empty arrays, comment / block-comment / "
                 "description literals, trailing comments, block comments, multi-line descriptions with long words, double "
-                "spaces, tabs and Unicode spaces, arbitrary blank-line and indentation patterns), windows of /repo's "
+                "spaces, tabs and Unicode spaces, arbitrary blank-line and indentation patterns), "
+                "a share of shape-directed files (gen.shapes: Unicode white space U+0085 / U+00A0 / U+2028 / U+3000 / VT / FF between tokens, in "
+                "indentation and after the description bar, several closing braces and other fragments on one line, description blocks "
+                "separated by one token-less line or a comment, header descriptions followed by description blocks, comment / description "
+                "tokens as assignment values, strings over two lines, 14-25 levels of nesting with descriptions (width <= 0), 60-260 rune words, "
+                "unterminated block comment at the end), windows of /repo's "
                 ".j5s/.bcl/parser testdata with edits, plus a share of token-mutated and random inputs. Non-trivial = "
                 "ParseFile accepts the source (the property's quantifier); distinct by op text.",
     }],
